@@ -610,9 +610,11 @@ class MQTTProtocol(MQTTBaseProtocol):
         for _, reply in self.factory.windowPubRelease[self.addr].items():
             self._retryRelease(reply, dup=True)
         for _, request in self.factory.windowPublish[self.addr].items():
-            if request.alarm is not None:
-                request.alarm.cancel()
-            self._retryPublish(request, dup=True)
+            # only what an earlier connection left behind (the connection loss
+            # cleared its alarm); a request made on this connection before its
+            # CONNACK is already on its way and must not be sent twice
+            if request.alarm is None:
+                self._retryPublish(request, dup=True)
         for _, request in self.factory.windowSubscribe[self.addr].items():
             self._retrySubscribe(request, dup=True)
         for _, request in self.factory.windowUnsubscribe[self.addr].items():
@@ -627,10 +629,11 @@ class MQTTProtocol(MQTTBaseProtocol):
         #log.debug("{event}", event="Clean Persistent Session")
         for k in list(self.factory.windowPublish[self.addr]):
             request = self.factory.windowPublish[self.addr][k]
-            del self.factory.windowPublish[self.addr][k]
             if request.alarm is not None:
-                request.alarm.cancel()
-                request.alarm = None
+                # requested on this connection (before its CONNACK), it is not
+                # part of the session being purged
+                continue
+            del self.factory.windowPublish[self.addr][k]
             request.deferred.errback(reason)
 
         for k in list(self.factory.windowPubRelease[self.addr]):
